@@ -2,5 +2,7 @@ SPECIFICATION Spec
 CONSTANTS
   Dev = {}
   MaxCross = 2
+  GrpSlots = {1, 3}
+  TClasses = {"Cls", "Pkg"}
 INVARIANT C10
 CHECK_DEADLOCK FALSE
